@@ -44,14 +44,22 @@ def ensure_asan(clean=True):
         return None
     from sim import bootstrap
 
-    logdir = os.path.join(HERE, ".cache", "asan")
+    # one log directory per invocation (concurrent checks must not touch each other's logs);
+    # directories older than six hours are removed
+    import shutil
+    import time
+
+    root = os.path.join(HERE, ".cache", "asan")
+    os.makedirs(root, exist_ok=True)
+    for d in os.listdir(root):
+        path = os.path.join(root, d)
+        try:
+            if time.time() - os.path.getmtime(path) > 6 * 3600:
+                shutil.rmtree(path, ignore_errors=True)
+        except OSError:
+            pass
+    logdir = os.path.join(root, "run-%d" % os.getpid())
     os.makedirs(logdir, exist_ok=True)
-    if clean:
-        for f in os.listdir(logdir):
-            try:
-                os.unlink(os.path.join(logdir, f))
-            except OSError:
-                pass
     try:
         env = bootstrap.asan_env(os.path.join(logdir, "log"))
         for name in ("_crypto", "_buffer"):  # compile before the runtime is preloaded into everything
